@@ -233,8 +233,8 @@ func (h *harness) consumer(g *gor, ti int) {
 			continue
 		}
 		if seen[p.Token] { // O2
-			h.fail("subscriber of topic %d received message %s twice", ti, p.Token)
-			return
+			h.fail("O2: subscriber of topic %d received message %s twice", ti, p.Token)
+			continue // keep draining, as a module would
 		}
 		seen[p.Token] = true
 		n++
